@@ -4,18 +4,20 @@
    W is the window size (core.NumBlocksPerFilter in juno), [member] the bloom test, assumed only to
    say yes for inserted keys.  [guarded] = every UNGRACEFUL restart of the history finds a disk on which
    the branch InitializeRunningEventFilter takes is fed trustworthy data (disk_ok_b); [cache_fresh] =
-   every cached window equals the currently persisted one. Neither holds for all histories of the real
-   code: see the two witnesses at the end (stale cache, stale snapshot). Since /repo commit 5440575
+   every cached window equals the currently persisted one. [guarded] does not hold for all histories of
+   the real code: see the witness at the end (stale snapshot). [cache_fresh] is an invariant since
+   /repo commit 5bb6f6f (RevertHead resets the cache): C09_cache_fresh_invariant. Since /repo commit 5440575
    (onReorg deletes the persisted window it re-enters) the rebuild branch needs nothing from the disk:
    [guarded] only constrains restarts that use a snapshot, and holds for every history without a
    graceful restart (C09_guarded_without_graceful_restart). *)
 From Coq Require Import List NArith Bool.
-From V Require Import C09.Model C09.Proofs C09.Proofs_paging C09.Proofs_inv C09.Proofs_main.
+From V Require Import C09.Model C09.Proofs C09.Proofs_paging C09.Proofs_inv C09.Proofs_cache C09.Proofs_main.
 Import ListNotations.
 Open Scope N_scope.
 
-(* No false negative: in every state reached by a guarded history whose cache is fresh, every block
-   that holds a matching event is a candidate of the bloom index (so the exact matcher sees it). *)
+(* No false negative: in every state reached by a guarded history, every block that holds a matching
+   event is a candidate of the bloom index (so the exact matcher sees it) - whatever the cache holds,
+   after reorgs of any depth and restarts. *)
 Theorem C09_no_false_negative :
   forall (W : N), 0 < W ->
   forall (member : list bkey -> bkey -> bool),
@@ -23,7 +25,6 @@ Theorem C09_no_false_negative :
   forall ops : list op,
   guarded W member init_state ops = true ->
   let s := ensure W (run W member init_state ops) in
-  cache_fresh s ->
   forall flt n, n < lenN (chain s) -> block_matches (chain s) flt n <> [] ->
     cand_item W member s flt n = Some true.
 Proof. exact no_false_negative_lemma. Qed.
@@ -39,7 +40,7 @@ Theorem C09_paging_concat :
   forall ops : list op,
   guarded W member init_state ops = true ->
   let s := ensure W (run W member init_state ops) in
-  cache_fresh s -> chain s <> [] ->
+  chain s <> [] ->
   forall flt from to chunk limit fuel, 0 < chunk ->
   (length (chain s) + length (filter_spec (chain s) flt from to) < fuel)%nat ->
   pages W member fuel s flt from to chunk limit (0, 0) = Some (filter_spec (chain s) flt from to).
@@ -68,6 +69,15 @@ Theorem C09_restart_init_ok :
   rinv W (ensure W (do_restart W s graceful)).
 Proof. exact restart_init_ok_all. Qed.
 Print Assumptions C09_restart_init_ok.
+
+(* the cache never holds a stale window: every cached window equals the persisted one, in every state
+   reached by a guarded history (queries, LRU forgetting, reorgs across window boundaries, restarts) *)
+Theorem C09_cache_fresh_invariant :
+  forall (W : N), 0 < W ->
+  forall (member : list bkey -> bkey -> bool) (ops : list op),
+  guarded W member init_state ops = true -> cache_fresh (ensure W (run W member init_state ops)).
+Proof. exact reachable_cache_fresh. Qed.
+Print Assumptions C09_cache_fresh_invariant.
 
 (* the invariant holds in every state reached by a guarded history *)
 Theorem C09_reachable_invariant :
@@ -146,27 +156,20 @@ Example good_history :
   pages 2 member_exact 20 s fB 0 10 1 1 (0, 0) = Some (filter_spec (chain s) fB 0 10).
 Proof. vm_compute. repeat split; reflexivity. Qed.
 
-(* 1. the stale cache (juno never invalidates AggregatedBloomFilterCache): W = 2; window 0 is cached by
-   a query, then reverted into and refilled with different blocks. The history has no restart at all,
-   so it is guarded; only cache_fresh fails. Block 1 holds an event from B, is not a candidate, and the
-   pages miss it. *)
+(* 1. regression witness for /repo commit 5bb6f6f (W = 2): window 0 is cached by a query, then reverted
+   into and refilled with different blocks. Before the fix the cache was never invalidated, block 1 (event
+   from B) was not a candidate and the pages missed it; now the revert empties the cache. *)
 Definition h_stale_cache : list op :=
   [Store []; Store [[evA]]; Store []; Query fA 0 10 5 0 (0, 0);
    Revert; Revert; Store [[evB]]; Store []].
 
-Theorem C09_no_false_negative_refuted :
-  exists ops flt n,
-    guarded 2 member_exact init_state ops = true /\
-    let s := ensure 2 (run 2 member_exact init_state ops) in
-    cache_fresh_b s = false /\
-    n < lenN (chain s) /\ block_matches (chain s) flt n <> [] /\
-    cand_item 2 member_exact s flt n = Some false /\
-    pages 2 member_exact 20 s flt 0 10 5 0 (0, 0) = Some [] /\
-    filter_spec (chain s) flt 0 10 = [Build_fev 1 0 0 evB].
-Proof.
-  exists h_stale_cache, fB, 1. vm_compute. repeat split; try reflexivity. discriminate.
-Qed.
-Print Assumptions C09_no_false_negative_refuted.
+Example stale_cache_fixed :
+  guarded 2 member_exact init_state h_stale_cache = true /\
+  let s := ensure 2 (run 2 member_exact init_state h_stale_cache) in
+  cache_fresh_b s = true /\
+  cand_item 2 member_exact s fB 1 = Some true /\
+  pages 2 member_exact 20 s fB 0 10 5 0 (0, 0) = Some [Build_fev 1 0 0 evB].
+Proof. vm_compute. repeat split; reflexivity. Qed.
 
 (* 2. [guarded] is needed, snapshot branch: the snapshot written at a graceful shutdown is never
    invalidated; after a reorg of the head block and a crash it is taken as it is (next = head+1). *)
